@@ -292,6 +292,23 @@ func (c *c18ctx) predicateIdentities(xs, p string, envIdx []int) {
 			mark("one-count", c.judgeEqual("one-count", "one("+xs+", {"+p+"})", "count("+xs+", {"+p+"}) == 1", m, ei, true))
 			mark("count-filter", c.judgeEqual("count-filter", "count("+xs+", {"+p+"})", "len(filter("+xs+", {"+p+"}))", m, ei, true))
 			mark("filter-spec", c.filterSpec(xs, p, m, ei))
+			// (count visits every element, any / none stop at the first hit: values compared, not call logs)
+			// count = len(filter) wherever the count is USED: compared with 0 / 1 / 2 from either side (two forms per instance,
+			// chosen by the instance; the quantifier readings any / none / one of such comparisons included)
+			cnt, flt := "count("+xs+", {"+p+"})", "len(filter("+xs+", {"+p+"}))"
+			h := 0
+			for _, ch := range xs + p {
+				h = (h*31 + int(ch)) & 0xffff
+			}
+			ops := []string{"<", "<=", ">", ">=", "==", "!="}
+			for j := 0; j < 2; j++ {
+				op, k := ops[(h+j*5)%6], (h/7+j)%3
+				mark("count-filter", c.judgeEqual("count-filter", fmt.Sprintf("%d %s %s", k, op, cnt), fmt.Sprintf("%d %s %s", k, op, flt), m, ei, true))
+				mark("count-filter", c.judgeEqual("count-filter", fmt.Sprintf("%s %s %d", cnt, ops[(h+j*5+3)%6], k), fmt.Sprintf("%s %s %d", flt, ops[(h+j*5+3)%6], k), m, ei, true))
+			}
+			mark("none-any", c.judgeEqual("none-any", "0 >= "+cnt, "none("+xs+", {"+p+"})", m, ei, false))
+			mark("none-any", c.judgeEqual("none-any", "0 < "+cnt, "any("+xs+", {"+p+"})", m, ei, false))
+			mark("one-count", c.judgeEqual("one-count", "1 == "+cnt, "one("+xs+", {"+p+"})", m, ei, false))
 		}
 	}
 }
@@ -1133,6 +1150,71 @@ func runC18() {
 	}
 
 	rep.Distinct = len(c.dist)
+	// ---- the NAMES of environment variables do not matter inside a closure: an environment variable called like one of the
+	//      loop's own bookkeeping names (i, size, array, count) is the environment variable - every builtin, every nesting, compiled
+	//      without an environment type / against a typed map / with Eval (identifier access by name at run time)
+	{
+		names := []string{"i", "size", "array", "count"}
+		mk := func(prefix string) map[string]interface{} {
+			m := map[string]interface{}{"xs": []int{1, 2, 3, 4, 5}, "ys": []int{2, 4}}
+			for k, n := range names {
+				m[prefix+n] = k + 2
+			}
+			return m
+		}
+		tmk := func(prefix string) map[string]int {
+			m := map[string]int{}
+			for k, n := range names {
+				m[prefix+n] = k + 2
+			}
+			return m
+		}
+		templates := []string{"filter(1..6, {# > %s})", "map(1..4, {# + %s})", "all(1..6, {# > %s})", "any(1..6, {# == %s})", "none(1..6, {# == %s + 3})", "one(1..6, {# > %s + 1})", "count(1..6, {# >= %s})",
+			"map(1..3, {filter(1..6, {# > %s})})", "filter(1..6, {# > %s and # > %s - 1})", "count(1..6, {# > %s}) + %s", "map(1..2, {%s})", "len(filter(1..9, {# %% %s == 0}))"}
+		evalOn := func(src string, env interface{}, how string) (interface{}, error) {
+			defer func() { recover() }()
+			switch how {
+			case "Eval":
+				return expr.Eval(src, env)
+			case "typed map":
+				p, err := expr.Compile(src, expr.Env(env))
+				if err != nil {
+					return nil, err
+				}
+				return expr.Run(p, env)
+			default:
+				p, err := expr.Compile(src)
+				if err != nil {
+					return nil, err
+				}
+				return expr.Run(p, env)
+			}
+		}
+		for _, tpl := range templates {
+			for _, n := range names {
+				for _, how := range []string{"Compile without Env", "Eval", "typed map"} {
+					var e1, e2 interface{} = mk(""), mk("z")
+					if how == "typed map" {
+						e1, e2 = tmk(""), tmk("z")
+					}
+					a := strings.Count(tpl, "%s")
+					args1, args2 := make([]interface{}, a), make([]interface{}, a)
+					for k := range args1 {
+						args1[k], args2[k] = n, "z"+n
+					}
+					s1, s2 := fmt.Sprintf(tpl, args1...), fmt.Sprintf(tpl, args2...)
+					o1, err1 := evalOn(s1, e1, how)
+					o2, err2 := evalOn(s2, e2, how)
+					rep.Evaluations++
+					rep.hist("environment variable named like a loop variable")
+					if (err1 == nil) != (err2 == nil) || (err1 == nil && !c18sameValue(o1, o2)) {
+						rep.fail(Failure{Key: "C18-closure-env-name", What: "inside a closure an environment variable named like the loop's own bookkeeping (i, size, array, count) is not the environment variable",
+							Input: map[string]interface{}{"src": s1, "how": how, "env": fmt.Sprint(e1)}, Want: fmt.Sprintf("as %s over the renamed variable: %v (error %v)", s2, o2, err2), Got: fmt.Sprintf("%v (error %v)", o1, err1)})
+					}
+				}
+			}
+		}
+	}
 	rep.Rule = "instances = (array, predicate/mapper) pairs drawn from fixed pools (typed slices AI AS AA AF, literals, ranges incl. empty and descending, results of filter/map, slice expressions; predicates with #, with logging calls IsPos/Inc, with builtins of their own, non-boolean and failing ones) and from the type-directed generator egen (elems set to the element type), closed bodies nested under 1-3 map wrappers (total closure depth up to 4+), integer-kinded operands of every integer kind against literal and dynamic range bounds, split points below 0 / inside / at / beyond len for arrays and strings; both sides compiled untyped, typed, untyped+opt, typed+opt and run on base/zero(nil slices)/boundary(empty)/long(8 elements)/singleton/random environments; one evaluation = one judgement of a pair of runs (or of a run against the natively computed result); distinct_nontrivial counts distinct (identity, sources, mode, environment) judged with BOTH sides compiled and a non-empty collection (non-descending range, non-empty sequence)"
 	for _, s := range samples {
 		rep.Samples = append(rep.Samples, s)
